@@ -232,6 +232,9 @@ def strategy(draw):
       'unev': draw(st.sampled_from([False, False, True])),
       'close': draw(st.sampled_from([None, 'str', 'str', 'file'])),
       'finalize': draw(st.sampled_from([True, True, True, False])),
+      # finalize may be called while a config scope is active: what it rejects does not depend
+      # on that
+      'finalize_scope': draw(st.sampled_from(['', '', 'zs', 'zs/zt'])),
   }
 
 
@@ -698,10 +701,13 @@ def check_case(case):
     if case.get('finalize'):
       offenders = model.offenders()
       try:
-        gin.finalize()
+        with gin.config_scope(case.get('finalize_scope') or None):
+          gin.finalize()
         raised = None
       except Exception as e:  # pylint: disable=broad-except
         raised = e
+      if case.get('finalize_scope'):
+        labels.add('finalize:inside-config-scope')
       if offenders:
         require(raised is not None, 'finalize-accepted',
                 lambda: f'finalize() returned although the configuration has {offenders[:4]}')
